@@ -120,6 +120,12 @@ func init() {
 				c.Attr("~details-bin-code", fmt.Sprint(end.DetailsCode))
 			}
 		}
+		if (tp == vanguard.ProtocolGRPC || tp == vanguard.ProtocolGRPCWeb) && len(det) > 0 && msg != "" && !detailsDisagree && c.Choose("grpc-message-omitted", 2) == 1 {
+			// Grpc-Message is optional; with details, the complete status (code, message, details) is the
+			// google.rpc.Status in Grpc-Status-Details-Bin, and a server may leave the header out
+			end.OmitGrpcMessage = true
+			c.Attr("~grpc-message", "omitted (message only in the binary status)")
+		}
 		call := &mxCall{Base: b, ReqMsgs: req, RespMsgs: resp[:min(pos, len(resp))], End: end, TrailersOnly: pos == 0, Lenient: true}
 		if pos == 0 && c.Choose("compressed-error", 2) == 1 {
 			// the backend compresses what carries its error (error body of a flat protocol,
